@@ -388,17 +388,13 @@ def _main(prop, tier, seed, scen_name, scratch, t0, only):
 
     # witnesses
     n_valid = n_wit_skipped = n_wit_diverged = 0
-    for tid, (ji, rec) in wit_index.items():
-        r = cres.get(tid)
+
+    def compare(ji, rec, r):
+        """-> 'skip' | 'diverged' | None (agree) | str (problem)"""
         if r is None or r['status'] == 'error':
-            harness_msgs.append("witness run failed (%s cfg=%s choices=%s model=%s): %s" % (
-                jobs[ji]['fn'], json.dumps(jobs[ji]['cfg'])[:300], rec.get('choices'), rec.get('model'),
-                (r or {}).get('exc', 'no result')[:600]))
-            n_harness += 1
-            continue
+            return "witness run failed: %s" % ((r or {}).get('exc', 'no result')[:600])
         if r['status'] == 'unrepresentable':
-            n_wit_skipped += 1
-            continue
+            return 'skip'
         nondet = any(s in (rec.get('stubs') or {}) for s in ('Decimal(fraction)', 'math.log10'))
         sym_keys = [o['key'] for o in rec['obls']]
         con_keys = [o['key'] for o in r['obls']]
@@ -421,15 +417,37 @@ def _main(prop, tier, seed, scen_name, scratch, t0, only):
                 if len(rec['obs']) != len(r['obs']):
                     problems.append("observation count differs")
         if problems:
-            if nondet:
-                n_wit_diverged += 1
+            return 'diverged' if nondet else '; '.join(problems)[:800]
+        return None
+
+    pending = []
+    for tid, (ji, rec) in wit_index.items():
+        v = compare(ji, rec, cres.get(tid))
+        if v == 'skip':
+            n_wit_skipped += 1
+        elif v == 'diverged':
+            n_wit_diverged += 1
+        elif v is None:
+            n_valid += 1
+        else:
+            pending.append((tid, ji, rec, v))
+    if pending:
+        # the C decimalfp build corrupts memory on some quotients (DESIGN section 9): a
+        # disagreement is re-examined on the pure-Python build before it counts
+        sub = os.path.join(scratch, 'recheck')
+        os.makedirs(sub, exist_ok=True)
+        by_id = {t['id']: t for t in tasks}
+        r2 = _run_concrete([by_id[tid] for tid, _, _, _ in pending], sub, True)
+        for tid, ji, rec, v in pending:
+            v2 = compare(ji, rec, r2.get(tid))
+            if v2 is None:
+                CRASH_STATS['c_dependency_divergences'] = CRASH_STATS.get('c_dependency_divergences', 0) + 1
+                n_valid += 1
                 continue
             n_harness += 1
-            harness_msgs.append("WITNESS MISMATCH job=%s cfg=%s model=%s: %s" % (
-                jobs[ji]['fn'], json.dumps(jobs[ji]['cfg'])[:200], rec['model'],
-                '; '.join(problems)[:800]))
-        else:
-            n_valid += 1
+            harness_msgs.append("WITNESS MISMATCH job=%s cfg=%s choices=%s model=%s: %s" % (
+                jobs[ji]['fn'], json.dumps(jobs[ji]['cfg'])[:200], rec.get('choices'),
+                rec['model'], v))
 
     # canaries
     canary_jobs = [ji for ji, j in enumerate(jobs) if j.get('canary')]
@@ -461,6 +479,19 @@ def _main(prop, tier, seed, scen_name, scratch, t0, only):
                   any((not o['ok']) and o['key'] == key for o in r['obls']))
         by_key.setdefault(key, []).append((ok, tid, ji, rec, ob, r))
     os.makedirs(os.path.join(ROOT, 'replays'), exist_ok=True)
+    # counterexamples that did not reproduce on the C build: once more on the Python build
+    retry = [x for key, lst in by_key.items() if not any(y[0] for y in lst) for x in lst]
+    if retry:
+        sub = os.path.join(scratch, 'replay-recheck')
+        os.makedirs(sub, exist_ok=True)
+        by_id = {t['id']: t for t in tasks}
+        r2 = _run_concrete([by_id[x[1]] for x in retry], sub, True)
+        for key, lst in by_key.items():
+            for i, x in enumerate(lst):
+                rr = r2.get(x[1])
+                if rr and rr['status'] == 'ok' and any((not o['ok']) and o['key'] == key for o in rr['obls']):
+                    rr['via_python_impl'] = True
+                    lst[i] = (True, x[1], x[2], x[3], x[4], rr)
     for key, lst in by_key.items():
         good = [x for x in lst if x[0]]
         if not good:
@@ -525,6 +556,7 @@ def _main(prop, tier, seed, scen_name, scratch, t0, only):
                                    for k, v in known_hits.items()],
             'non_reproducing_counterexamples': n_nonrepro,
             'concrete_runs_crashed_in_c_decimalfp_rerun_on_python_impl': CRASH_STATS['c_dependency_crashes'],
+            'witnesses_wrong_on_c_decimalfp_but_right_on_python_impl': CRASH_STATS.get('c_dependency_divergences', 0),
             'symbolic_phase_s': round(t_sym, 2), 'concrete_phase_s': round(t_conc, 2),
             'exhaustive': bool(cfgs.get('exhaustive', False)),
             'harness_messages': harness_msgs[:20],
